@@ -31,6 +31,7 @@ type c04in struct {
 	// (the code compares whole microseconds; the exact model is not compared there)
 	Edge string `json:"edge,omitempty"`
 	Form string `json:"form,omitempty"` // "nowDate": the instant is given as nowDate=<RFC 3339 with milliseconds>
+	Head bool   `json:"head_twin,omitempty"` // the same URL is also asked with HEAD and must get the same status
 }
 
 func phaseOK(want, got int) bool {
@@ -130,6 +131,11 @@ func run(c *lib.Ctx) error {
 						key = "panic:" + o.Panic
 					}
 					c.Fail("replay", key, fmt.Sprintf("%s answered %d %s at nowMS=%d, expected phase %d", in.URL, o.Status, o.Panic, in.NowMS, in.Want), in)
+				}
+				if in.Head {
+					if hs := ls.DoRaw("HEAD", in.URL).Status; hs != o.Status {
+						c.Fail("replay", "head-differs:"+in.Kind, fmt.Sprintf("%s at nowMS=%d: GET answered %d, HEAD answered %d", in.URL, in.NowMS, o.Status, hs), in)
+					}
 				}
 			}
 		}
@@ -314,6 +320,9 @@ func run(c *lib.Ctx) error {
 		t     target
 		obs   lib.SegObs
 		sweep int
+		// HEAD twin
+		head       bool
+		headStatus int
 	}
 	var jobs []*job
 	for si, t := range targets {
@@ -442,6 +451,11 @@ func run(c *lib.Ctx) error {
 
 	// run: requests that a finite availabilityTimeOffset turns into paced chunked responses take
 	// real time (up to ato), so all requests run on a pool
+	// the same URL asked with HEAD goes through the same phases (every generated-subtitle request, a third of the others)
+	for k, j := range jobs {
+		j.head = j.t.kind == "gensub" || j.in.Kind == "unknown-rep" || k%3 == 0
+		j.in.Head = j.head
+	}
 	var wg sync.WaitGroup
 	sem := make(chan struct{}, 64)
 	for _, j := range jobs {
@@ -451,6 +465,9 @@ func run(c *lib.Ctx) error {
 			defer wg.Done()
 			defer func() { <-sem }()
 			j.obs = lib.ObserveSeg(ls.GetRaw(j.in.URL), j.t.r)
+			if j.head {
+				j.headStatus = ls.DoRaw("HEAD", j.in.URL).Status
+			}
 		}(j)
 	}
 	wg.Wait()
@@ -472,6 +489,12 @@ func run(c *lib.Ctx) error {
 			c.Fail(cid, key, fmt.Sprintf("%s answered %d %s at nowMS=%d, expected phase %d (0=425 1=200 2=410 4=404)", in.URL, o.Status, o.Panic, in.NowMS, in.Want), in)
 		} else {
 			distinct[fmt.Sprintf("%s|%d", in.URL[:strings.Index(in.URL, "?")], in.Want)] = true
+		}
+		if j.head && o.Status != 0 && j.headStatus != o.Status {
+			c.Count("head-twins-differ")
+			c.Fail(cid, "head-differs:"+in.Kind, fmt.Sprintf("%s at nowMS=%d: GET answered %d, HEAD answered %d", in.URL, in.NowMS, o.Status, j.headStatus), in)
+		} else if j.head {
+			c.Count("head-twins-agree")
 		}
 		if j.sweep >= 0 && ph >= 0 {
 			if lp, ok := lastPhase[j.sweep]; ok && ph < lp && ph != 4 && lp != 4 {
